@@ -13,6 +13,8 @@ func main() {
 	switch os.Args[1] {
 	case "chaos":
 		cmdChaos(os.Args[2:])
+	case "codec":
+		cmdCodec(os.Args[2:])
 	default:
 		fmt.Fprintln(os.Stderr, "unknown command", os.Args[1])
 		os.Exit(2)
